@@ -5365,7 +5365,9 @@ mod_webdav_copymove_b (request_st * const r, const plugin_config * const pconf, 
                 }
                 buffer_append_string_len(dst_path, sep, len);
                 buffer_append_string_len(dst_rel_path, sep, len);
-                if (buffer_clen(dst_path) >= PATH_MAX) {
+                if (buffer_clen(dst_path) >= PATH_MAX
+                    || buffer_is_equal(dst_path, &r->physical.path)) {
+                    /* (dst is src: file sent to its own parent collection) */
                     http_status_set_error(r, 403); /* Forbidden */
                     return HANDLER_FINISHED;
                 }
